@@ -18,32 +18,44 @@ def Mode.ofString : String → Mode
   | "check" => .check | "recheck" => .recheck | "prepare" => .prepare | "process" => .process
   | "finalize" => .finalize | "simulate" => .simulate | _ => .other
 
-def ethBlockMsg : String := "goat.goat.v1.MsgNewEthBlock"
+/-- message names are lists of character codes (so that prefix tests reduce in the kernel) -/
+abbrev Name := List Nat
 
-def isRelayerNs (name : String) : Bool := name.startsWith "goat.bitcoin." || name.startsWith "goat.relayer."
+def nameOf (s : String) : Name := s.toList.map Char.toNat
+
+/-- "goat.goat.v1.MsgNewEthBlock" -/
+def ethBlockMsg : Name := [103, 111, 97, 116, 46, 103, 111, 97, 116, 46, 118, 49, 46, 77, 115, 103, 78, 101, 119, 69, 116, 104, 66, 108, 111, 99, 107]
+/-- "goat.bitcoin." -/
+def nsBitcoin : Name := [103, 111, 97, 116, 46, 98, 105, 116, 99, 111, 105, 110, 46]
+/-- "goat.relayer." -/
+def nsRelayer : Name := [103, 111, 97, 116, 46, 114, 101, 108, 97, 121, 101, 114, 46]
+
+def isRelayerNs (name : Name) : Bool := nsBitcoin.isPrefixOf name || nsRelayer.isPrefixOf name
 
 /-- `relayerTxOnly` -/
-def relayerTxOnly (name : String) (signerIsProposer : Bool) : Outcome Unit :=
+def relayerTxOnly (name : Name) (signerIsProposer : Bool) : Outcome Unit :=
   if !isRelayerNs name then .err "not-relayer-msg"
   else if !signerIsProposer then .err "not-proposer"
   else .ok ()
 
+/-- the allow-list test applied to one message -/
+def guardStep (mode : Mode) (timeout height : Nat) (signerIsProposer : Bool) (name : Name) : Outcome Unit :=
+  match mode with
+  | .check | .recheck | .prepare => relayerTxOnly name signerIsProposer
+  | .process | .finalize =>
+    if name == ethBlockMsg then
+      if timeout ≠ height then .err "ethblock-timeout" else .ok ()
+    else relayerTxOnly name signerIsProposer
+  | _ => .ok ()
+
 /-- GoatGuardHandler.AnteHandle: memo, signer count, timeout height, allow list.
     `signers` = number of signers of the tx; `signerIsProposer` = the first signer is the current
     relayer proposer. -/
-def guard (mode : Mode) (memoLen signers : Nat) (timeout height : Nat) (msgs : List String) (signerIsProposer : Bool) : Outcome Unit :=
+def guard (mode : Mode) (memoLen signers : Nat) (timeout height : Nat) (msgs : List Name) (signerIsProposer : Bool) : Outcome Unit :=
   if memoLen > 0 then .err "memo"
   else if signers ≠ 1 then .err "signers"
   else if timeout > 0 ∧ height > timeout then .err "timeout"
-  else
-    msgs.foldlM (fun (_ : Unit) name =>
-      match mode with
-      | .check | .recheck | .prepare => relayerTxOnly name signerIsProposer
-      | .process | .finalize =>
-        if name == ethBlockMsg then
-          if timeout ≠ height then .err "ethblock-timeout" else .ok ()
-        else relayerTxOnly name signerIsProposer
-      | _ => .ok ()) ()
+  else msgs.foldlM (fun (_ : Unit) name => guardStep mode timeout height signerIsProposer name) ()
 
 /-! ### goat module -/
 
@@ -96,6 +108,43 @@ def newEthBlockChecks (g : GState) (proposer cometProposer : Bytes) (p : Option 
     else if p.blobGasUsed > 0 then .err "blob"
     else if g.beaconRoot ≠ p.beaconRoot then .err "beacon-root"
     else .ok p
+
+/-- a block proposal as seen by ProcessProposal -/
+structure Proposal where
+  kinds : List String        -- per tx: "eth" (exactly one MsgNewEthBlock), "eth+" (MsgNewEthBlock among several), "rel"
+  anteOk : List Bool         -- per tx: passes the ante chain in process mode
+  payload : Option Payload   -- payload of the first transaction's MsgNewEthBlock
+  proposer : Bytes           -- proposer named by the message
+  comet : Bytes              -- consensus proposer of the height
+  reqDecodeOk : Bool
+  gasRequests : Nat          -- number of gas-revenue requests in the decoded list
+  engineStatus : String      -- answer of engine_newPayload ("VALID", …, "ERROR")
+  deriving Repr, Inhabited
+
+/-- ProcessProposal + verifyEthBlockProposal on the state `g` with the system transactions due now -/
+def processProposal (g : GState) (dueBtc dueLock : List String) (p : Proposal) : Outcome Unit :=
+  if p.kinds.length = 0 then .err "no-txs"
+  else if p.kinds.length > 16 then .err "too-many"
+  else if p.anteOk.any (· == false) then .err "invalid-tx"
+  else if p.kinds.head? ≠ some "eth" then .err "first-not-ethblock"
+  else if p.kinds.tail.any (fun k => k == "eth" || k == "eth+") then .err "ethblock-not-first"
+  else
+    match p.payload with
+    | none => .err "empty-payload"
+    | some pl =>
+      if p.proposer ≠ p.comet then .err "proposer"
+      else if p.proposer ≠ pl.feeRecipient then .err "fee-recipient"
+      else if pl.timestampInFuture then .err "timestamp"
+      else if g.head.blockHash ≠ pl.parentHash then .err "parent"
+      else if g.head.blockNumber + 1 ≠ pl.blockNumber then .err "parent"
+      else if !p.reqDecodeOk then .err "requests-decode"
+      else if p.gasRequests ≠ 1 then .err "gas-length"
+      else if g.beaconRoot ≠ pl.beaconRoot then .err "beacon-root"
+      else
+        match verifyDequeue pl.extraData pl.txs dueBtc dueLock with
+        | .err e => .err e
+        | .panic e => .panic e
+        | .ok () => if p.engineStatus != "VALID" then .err "engine" else .ok ()
 
 /-- Finalized: the two engine calls at the end of every block.  `newStatus`/`fcuStatus` are the
     scripted answers ("VALID", "INVALID", "SYNCING", "ACCEPTED", or "ERROR" for a transport error). -/
